@@ -629,6 +629,10 @@ def operand_params(facts, fpath, out_names=("destination", "result", "dest", "ou
 REQUIRED_PRE_EFFECT = {
     "text::Ciphertext": ("valid", "noseed"),
     "text::Plaintext": ("valid",),
+    # key material handed to key switching is an operand too: its residues are multiplied into the result
+    "key::KSwitchKeys": ("valid",),
+    "key::RelinKeys": ("valid",),
+    "key::GaloisKeys": ("valid",),
 }
 
 
@@ -704,3 +708,54 @@ def check_return_facts(facts, rep, eng, rows, rule):
         else:
             rep.violation(rule, key, "%s can return normally without any refusing branch on `%s` of (%s): %s" %
                           (p, cls, ", ".join(names), why), facts.loc(p))
+
+
+def check_key_material(facts, rep, rule="R-GUARD(keys)"):
+    """R-GUARD(keys) [N]: the routine that multiplies key-switching key material into a ciphertext refuses keys whose DATA is not
+    valid for the context.  In every function that takes a `&KSwitchKeys` and reads the residues of its keys
+    (`.as_ciphertext()` on an element of the selected key vector), a loop over that key vector must contain a refusing branch
+    whose condition evaluates `is_valid_for` — or both `is_metadata_valid_for` and `is_data_valid_for` — on the loop element.
+    Shape-only checks (metadata, buffer length) let a key with an out-of-range residue, or one that is still
+    seed-compressed (its data holds the seed flag word), be multiplied in instead of refused."""
+    rep.rule(rule, "the consumer of key-switching key material validates the data of every key of the selected vector "
+             "(is_valid_for, or metadata + data validity) in a refusing branch")
+    from facts import pat_bindings
+    n = 0
+    for p in sorted(facts.hir):
+        it = facts.items[p]
+        if "::tests::" in p or not any(strip_ty(prm.get("ty", "")) == "key::KSwitchKeys" for prm in it["params"]):
+            continue
+        body = facts.hir[p]
+        uses = [x for x in walk(body) if x.get("k") == "MCall" and x.get("name") == "as_ciphertext"]
+        if not uses:
+            continue
+        n += 1
+        rep.fn(p)
+        key = "%s/key-data" % p
+        found = None
+        weak = None
+        for lp in walk(body):
+            if lp.get("k") != "For":
+                continue
+            elems = {l for l, _ in pat_bindings(lp["pat"])}
+            for y in walk(lp["body"]):
+                if y.get("k") != "If" or not (facts.ty(y["th"]) == "!" or any(z.get("k") == "Ret" for z in walk(y["th"]))):
+                    continue
+                names = {z["name"] for z in walk(y["c"]) if z.get("k") == "MCall" and
+                         (root_local(z["recv"]) or (None,))[0] in elems}
+                if "is_valid_for" in names or ("is_metadata_valid_for" in names and "is_data_valid_for" in names):
+                    found = y
+                elif names & {"is_metadata_valid_for", "is_buffer_valid"}:
+                    weak = y
+        if found is not None:
+            rep.ok(rule, key, "every key of the selected vector passes a refusing data-validity check", facts.loc(p, found),
+                   sample={"function": p})
+        elif weak is not None:
+            rep.violation(rule, key, "the keys of the selected vector are checked for shape only (metadata / buffer length): a key "
+                          "with an out-of-range residue, or one still seed-compressed, is multiplied into the ciphertext instead of "
+                          "being refused", facts.loc(p, weak))
+        else:
+            rep.violation(rule, key, "key material is read without any refusing validity check on the keys of the selected vector",
+                          facts.loc(p, uses[0]))
+    rep.floor(rule, "consumers of key-switching key material", n, 1)
+    return n
